@@ -145,7 +145,7 @@ VERUS_UNITS = {
     },
     'accessors': {
         'template': 'accessors.rs.tpl',
-        'owners': [(r'React::(get|get_mut|get_noreact|set_if_neq|take)$', ['C14']), (r'ReactResInner::(new|get_mut|get_noreact|set_if_neq|take)$', ['C14']), (r'ReactiveMut::(set_if_neq|set_single_if_not_eq|get_mut|single_mut|get_noreact)$', ['C14'])],
+        'owners': [(r'React::(get|get_mut|get_noreact|set_if_neq|take)$', ['C14']), (r'ReactResInner::(new|get_mut|get_noreact|set_if_neq|take)$', ['C14']), (r'ReactiveMut::(set_if_neq|set_single_if_not_eq|get_mut|single_mut|get_noreact)$', ['C14']), (r'ReactResMut::(get_mut|get_noreact|set_if_neq)$', ['C14'])],
         'negctl': [
             ('&&& (new.eq_spec(&old_c.component) ==> (r is None && new_c.component == old_c.component && log1 == log0))', '&&& (new.eq_spec(&old_c.component) ==> (r is None && new_c.component == old_c.component && log1.len() == log0.len() + 1))', 'ReactiveMut::set_if_neq'),
             ('new.eq_spec(&old(self).component) ==> (r is None && final(self).component == old(self).component && (*final(c)).log() == (*old(c)).log()),',
